@@ -15,7 +15,10 @@ def generate(rng, tier):
     T = rng.choice([8.0, 10.0, 13.3, 16.0])
     ntx, nrx = rng.randint(3, 24), rng.randint(3, 14)
     style = rng.choice(["irq", "irq", "poll"])
-    return {"family": "uart_full", "params": {"T": T, "tx_depth": rng.choice([2, 4, 8, 16]), "rx_depth": rng.choice([4, 8, 16]), "style": style},
+    # dynamic: RS232PHY(with_dynamic_baudrate=True) built for another bit period T0; software programs the tuning word for T first
+    dyn = rng.random() < 0.3
+    return {"family": "uart_full", "params": {"T": T, "tx_depth": rng.choice([2, 4, 8, 16]), "rx_depth": rng.choice([4, 8, 16]), "style": style,
+                                              "dynamic": dyn, "T0": rng.choice([x for x in (8.0, 10.0, 13.3, 16.0, 27.0) if x != T])},
             "tx": [rng.getrandbits(8) for _ in range(ntx)], "rx": [{"data": rng.getrandbits(8), "gap": rng.choice([1.0, 1.0, 1.5, 3.0, 12.0])} for _ in range(nrx)],
             "think": [rng.choice([0, 0, 1, 2, 5, 17]) for _ in range(23)], "phase": rng.random(), "tx_start": rng.choice([0, 0, 40, 300]),
             "meta": [rng.getrandbits(1) for _ in range(16)]}
@@ -31,12 +34,16 @@ def run(scn, mkV, _result, decode_tx_wave, RemoteTx):
     pads = U.UARTPads()
     pads.rx.reset = 1
     top = Module()
-    top.submodules.phy = phy = U.RS232PHY(pads, clk, baudrate=clk / T)
+    dyn = p.get("dynamic", False)
+    if dyn:
+        top.submodules.phy = phy = U.RS232PHY(pads, clk, baudrate=clk / p["T0"], with_dynamic_baudrate=True)
+    else:
+        top.submodules.phy = phy = U.RS232PHY(pads, clk, baudrate=clk / T)
     top.submodules.uart = uart = U.UART(phy, tx_fifo_depth=p["tx_depth"], rx_fifo_depth=p["rx_depth"], rx_fifo_rx_we=(p["style"] == "poll"))
     bus = csr_bus.Interface(data_width=32, address_width=14)
-    top.submodules.bank = bank = csr_bus.CSRBank(uart.get_csrs(), address=0, bus=bus)
+    top.submodules.bank = bank = csr_bus.CSRBank(uart.get_csrs() + (phy.get_csrs() if dyn else []), address=0, bus=bus)
     adr = {c.name: a for a, c in enumerate(bank.simple_csrs)}
-    reg = {k: next(n for n in adr if n.rstrip("0123456789") == k) for k in ("rxtx", "txfull", "rxempty", "ev_pending", "ev_enable")}
+    reg = {k: next(n for n in adr if n.rstrip("0123456789") == k) for k in ("rxtx", "txfull", "rxempty", "ev_pending", "ev_enable") + (("tuning_word",) if dyn else ())}
     Tw = 2 ** 32 / int((clk / T / clk) * 2 ** 32)          # the bit period the core really uses (tuning word rounded down)
     # ---- line side: ideal transmitter for the RX frames
     edges, t, level = [], 30.0 + scn["phase"], 1
@@ -59,6 +66,8 @@ def run(scn, mkV, _result, decode_tx_wave, RemoteTx):
             n = think[st["accesses"] % len(think)]
             for _ in range(n):
                 yield None
+        if dyn:
+            yield ("w", "tuning_word", int((clk / T / clk) * 2 ** 32))
         yield ("w", "ev_pending", 3)
         if p["style"] == "irq":
             yield ("w", "ev_enable", 3)
@@ -206,4 +215,4 @@ def run(scn, mkV, _result, decode_tx_wave, RemoteTx):
     return _result(viols, (wave, st["got"]), {"cycles": len(rows), "checks": checks, "nontrivial": len(got_line) >= 3 and len(st["got"]) >= 3,
                                               "faults": {"think_cycles": sum(think), "phase_offset": 1},
                                               "probes": {"uart_full_tx": len(got_line), "uart_full_rx": len(st["got"]), "uart_isr_entries": st["isr"], "uart_events": nev,
-                                                         "uart_style_" + p["style"]: 1}})
+                                                         "uart_style_" + p["style"]: 1, "uart_dynamic_baudrate": int(dyn)}})
